@@ -78,6 +78,7 @@ type Explorer struct {
 	Unsupported    map[string]int
 	Unknown        int
 	Mismatch       int
+	ModelRetries   int
 	Failures       []Failure
 	KnownHits      map[string]int
 	Reached        map[string]int
@@ -90,6 +91,7 @@ type Explorer struct {
 	curHarness     string
 	curParams      map[string]int
 	Out            map[string]int
+	FailedIDs      map[string]bool
 	groupSize      int
 	sampleTape     []TapeEntry
 	sampleScore    int
@@ -98,7 +100,7 @@ type Explorer struct {
 
 func NewExplorer(s *Solver) *Explorer {
 	return &Explorer{solver: s, Unsupported: map[string]int{}, KnownHits: map[string]int{}, Reached: map[string]int{},
-		maxChoices: 600, maxFailures: 3, groupSize: envInt("GOSYM_GROUP", 1), openKnown: map[string]bool{}, assertPaths: map[string]int{}, shareWrites: map[string]int{}, Out: map[string]int{}}
+		maxChoices: 600, maxFailures: 3, groupSize: envInt("GOSYM_GROUP", 1), openKnown: map[string]bool{}, assertPaths: map[string]int{}, shareWrites: map[string]int{}, Out: map[string]int{}, FailedIDs: map[string]bool{}}
 }
 
 func (ex *Explorer) pcTerms(n int) []*Term {
@@ -253,6 +255,7 @@ func (ex *Explorer) Assert(cond *Term, id, msg string) {
 	res, m := check(exclude)
 	switch res {
 	case "sat":
+		ex.FailedIDs[id] = true
 		saved := ex.model
 		ex.setModel(m)
 		if len(ex.Failures) < ex.maxFailures {
@@ -266,6 +269,7 @@ func (ex *Explorer) Assert(cond *Term, id, msg string) {
 	for _, k := range ex.knowns {
 		r2, m2 := check([]*Term{k.cond})
 		if r2 == "sat" {
+			ex.FailedIDs[id] = true
 			if ex.KnownHits[k.id] == 0 {
 				saved := ex.model
 				ex.setModel(m2)
@@ -297,22 +301,38 @@ func (ex *Explorer) dropOnce() {
 // term (validates evaluator, simplifier and printer against the solver).
 func (ex *Explorer) checkModel(pc []*Term, extra []*Term) (string, map[*Term]uint64) {
 	res, m := ex.solver.Check(pc, extra, true)
-	if res == "sat" {
-		saved := ex.model
-		ex.setModel(m)
-		for _, t := range pc {
-			if ex.eval(t) != 1 {
+	if res == "sat" && ex.modelBad(m, pc, extra) != nil {
+		// the incremental core returned a model that violates an asserted
+		// term: discard that process and decide the query again in a fresh
+		// non-incremental one
+		ex.ModelRetries++
+		ex.solver.dirty = true
+		res, m = ex.solver.oneShot(pc, extra, "", nil, true)
+		ex.solver.Stats.Queries++
+		if res == "sat" {
+			if t := ex.modelBad(m, pc, extra); t != nil {
 				ex.modelMismatch(t)
 			}
 		}
-		for _, t := range extra {
-			if ex.eval(t) != 1 {
-				ex.modelMismatch(t)
-			}
-		}
-		ex.setModel(saved)
 	}
 	return res, m
+}
+
+func (ex *Explorer) modelBad(m map[*Term]uint64, pc, extra []*Term) *Term {
+	saved := ex.model
+	ex.setModel(m)
+	defer ex.setModel(saved)
+	for _, t := range pc {
+		if ex.eval(t) != 1 {
+			return t
+		}
+	}
+	for _, t := range extra {
+		if ex.eval(t) != 1 {
+			return t
+		}
+	}
+	return nil
 }
 
 func (ex *Explorer) modelMismatch(t *Term) {
@@ -477,12 +497,33 @@ func (ex *Explorer) next() bool {
 			}
 			// deepest node whose alternative the model takes
 			saved := ex.model
-			ex.setModel(m)
-			for _, t := range ex.pcTerms(start) {
-				if ex.eval(t) != 1 {
+			if ex.modelBad(m, ex.pcTerms(start), nil) != nil {
+				ex.ModelRetries++
+				ex.solver.dirty = true
+				res, m = ex.solver.oneShot(ex.pcTerms(start), nil, acc, rawTerms, true)
+				ex.solver.Stats.Queries++
+				if res != "sat" {
+					if res == "unsat" {
+						// the incremental answer was wrong altogether
+						ex.Samples = append(ex.Samples, "incremental sat refuted by fresh solver")
+					} else {
+						ex.Unknown++
+					}
+					for _, k := range cand {
+						e := &ex.pc[k]
+						if e.kind == 1 {
+							e.flipOK = false
+						} else {
+							e.noAlt = true
+						}
+					}
+					break
+				}
+				if t := ex.modelBad(m, ex.pcTerms(start), nil); t != nil {
 					ex.modelMismatch(t)
 				}
 			}
+			ex.setModel(m)
 			prefixOK := true
 			sel := -1
 			for k := start; k < len(ex.pc); k++ {
